@@ -54,6 +54,13 @@ var props = map[string]*Prop{}
 
 func Register(p *Prop) { props[p.ID] = p }
 
+// AppendRule extends the rule text of a registered property (used by families shared between properties).
+func AppendRule(id, text string) {
+	if p := props[id]; p != nil {
+		p.Rule += text
+	}
+}
+
 // Violation is one property violation (or known-finding candidate).
 type Violation struct {
 	Key    string      `json:"key"`    // class key; matched against known_findings.json
